@@ -11,6 +11,7 @@ import (
 
 	"manticheck/internal/absint"
 	"manticheck/internal/lanes"
+	"manticheck/internal/report"
 )
 
 // GUID text forms: R2 (format ≡ regex, dispatch constants), R3 (parser bit maps
@@ -178,7 +179,18 @@ func (x *c13) textForms() {
 	}
 	r.Extra["guid_format_shapes"] = shapes
 
+	mark := len(r.Obls)
 	x.dispatch(consts)
+	// the recogniser above reads `matched := regexp.MatchString(const, s); if
+	// matched { return FromFormatF(s) }` blocks; the lane interpretation of
+	// FromString on a string of each shape says which pattern decided the
+	// dispatch and which parser ran, however the dispatcher is written (a loop
+	// over a table of {pattern, parser}, a switch, pre-compiled patterns)
+	for _, F := range c13Formats {
+		cons := fmt.Sprintf("%s.FromString: pattern guarding FromFormat%s == GUID_FORMAT_%s_REGEX", c13PkgGUID, F, F)
+		sem := x.dispatchSem(F, consts, regexes[F])
+		arbitrateObls(r, mark, func(o *report.Obligation) bool { return o.Rule == c13R2 && o.Construct == cons }, sem)
+	}
 
 	// ---- R3 ----
 	for _, F := range c13Formats {
@@ -289,6 +301,73 @@ func (x *c13) dispatch(consts map[string]string) {
 			}
 		}
 	}
+}
+
+// dispatchSem interprets FromString on a symbolic string of format F's shape
+// and reports which regexp match decided the dispatch and which parser was
+// called.
+func (x *c13) dispatchSem(F string, consts map[string]string, sets []absint.CharSet) (v c14V) {
+	defer func() {
+		if e := recover(); e != nil {
+			v = c14Na("internal error in the lane interpretation: %v", e)
+		}
+	}()
+	fs := x.guidFn("", "FromString")
+	want, okW := consts[F]
+	if fs == nil || !okW || sets == nil {
+		return c14Na("FromString, the constant or its shape does not resolve")
+	}
+	parsers := map[*ssa.Function]string{}
+	for _, G := range c13Formats {
+		if fn := x.guidFn("", "FromFormat"+G); fn != nil {
+			parsers[fn] = G
+		}
+	}
+	in := x.interp()
+	id := in.NewSrc("text")
+	s := &absint.Str{}
+	for i := range sets {
+		if b, single := sets[i].Single(); single {
+			s.Chars = append(s.Chars, absint.Char{Lit: b})
+		} else if sets[i].IsLowerHexClass() {
+			s.Chars = append(s.Chars, absint.Char{Hex: c13SrcBits(id, i, 0, 4)})
+		} else {
+			return c14Na("position %d of the pattern is neither one literal nor [0-9a-f]", i)
+		}
+	}
+	called, at := "", -1
+	prev := in.Hook
+	in.Hook = func(in *absint.Interp, cc *ssa.CallCommon, callee *ssa.Function, args []absint.Value) (absint.Value, bool) {
+		if G, ok := parsers[callee]; ok && called == "" {
+			called, at = G, len(in.Matches)
+		}
+		if prev != nil {
+			return prev(in, cc, callee, args)
+		}
+		return nil, false
+	}
+	if _, err := in.Call(fs, s); err != nil {
+		return c14Na("FromString on the %s shape: %s", F, err.Error())
+	}
+	if called == "" {
+		return c14Na("FromString on the %s shape calls none of FromFormatN/D/B/P/X", F)
+	}
+	guard := ""
+	for i := at - 1; i >= 0; i-- {
+		if in.Matches[i].Result {
+			guard = in.Matches[i].Pat
+			break
+		}
+	}
+	switch {
+	case called != F:
+		return c14Bad_("a string of the shape of GUID_FORMAT_%s_REGEX is handed to FromFormat%s", F, called)
+	case guard == "":
+		return c14Na("on the %s shape FromFormat%s is called without a regexp match having succeeded before", F, F)
+	case guard != want:
+		return c14Bad_("on the %s shape the match that lets FromString call FromFormat%s uses %q, the format's constant is %q", F, F, guard, want)
+	}
+	return c14Ok("on a string of the %s shape the %d-th match tried is the first to succeed, its pattern is the constant's value, and FromFormat%s is what is called", F, at, F)
 }
 
 // c13MatchCall recognises regexp.MatchString(const, s) and
